@@ -633,6 +633,31 @@ def do_flat(ctx, rng):
         yn = F.flat_to_npc(y).to_ndarray()
         if not (np.linalg.norm(yn - p['d'] @ xn) <= 1e-9 * max(1.0, np.linalg.norm(p['d']))):
             ctx.violation('flat:matvec', '', case)
+        # all sectors at once (charge_sector=None), then switching the same object to the sector
+        if not p['leg'].is_blocked() or opts['compact_flat']:
+            # (the representation of a vector of undetermined charge uses one column per charge block: blocked legs only, as the
+            #  pipes of from_guess_with_pipe are; compact_flat is documented to need a fixed sector)
+            ctx.count('flat.runs')
+            return p, opts, 'flat'
+        G = cls.from_NpcArray(p['A'], charge_sector=None, compact_flat=opts['compact_flat'])
+        n = p['n']
+        if G.shape != (n, n):
+            ctx.violation('flat:None-sector:shape', '%r for dimension %d' % (G.shape, n), case)
+        else:
+            x = rng.standard_normal(n).astype(G.dtype)
+            y = G.matvec(x)
+            # (the flat basis of the full space is the basis of the leg)
+            if not (np.linalg.norm(y - p['d'] @ x) <= 1e-9 * max(1.0, np.linalg.norm(p['d'])) * max(1.0, np.linalg.norm(x))):
+                ctx.violation('flat:None-sector:matvec', '', case)
+            back = G.flat_to_npc_None_sector(p['v0'].astype(G.dtype)).to_ndarray()
+            if not (np.linalg.norm(back - p['v0']) <= 1e-12):
+                ctx.violation('flat:None-sector:flat_to_npc_None_sector', '', case)
+            ctx.count('flat.none_sector')
+            G.charge_sector = list(p['sector'])
+            x = rng.standard_normal(G.shape[1]).astype(G.dtype)
+            xn, yn = G.flat_to_npc(x).to_ndarray(), G.flat_to_npc(G.matvec(x)).to_ndarray()
+            if G.shape != F.shape or not (np.linalg.norm(yn - p['d'] @ xn) <= 1e-9 * max(1.0, np.linalg.norm(p['d']))):
+                ctx.violation('flat:sector-set-afterwards:matvec', 'shape %r vs %r' % (G.shape, F.shape), case)
     except Exception as e:
         if opts['compact_flat'] and 'works only for blocked' in str(e):
             raise _Skip()  # documented restriction
